@@ -139,8 +139,8 @@ mut("C09", "sd-lamb-not-accumulated", SD,
     "            self.data += other.data\n            self.lamb += other.lamb  # reorganization energy is additive\n            for i in range(2):\n                self.lim_omega[i] += other.lim_omega[i] ",
     "            self.data += other.data\n            for i in range(2):\n                self.lim_omega[i] += other.lim_omega[i] ")
 mut("C09", "axis-check-removed", CF,
-    "        if t1 == t2:\n             \n            with energy_units(\"int\"):\n                f = CorrelationFunction(t1, params=self.params)",
-    "        if True:\n             \n            with energy_units(\"int\"):\n                f = CorrelationFunction(t1, params=self.params)")
+    "        t1 = self.axis\n        t2 = other.axis\n        if t1 == t2:\n            \n            self.data += other.data\n            self.lamb += other.lamb  # reorganization energy is additive",
+    "        t1 = self.axis\n        t2 = other.axis\n        if t1.length == t2.length:\n            \n            self.data += other.data\n            self.lamb += other.lamb  # reorganization energy is additive")
 
 # ------------------------------------------------------------------ C15
 mut("C15", "heom-ados-carried-over", "quantarhei/qm/liouvillespace/heom.py",
